@@ -85,7 +85,7 @@ CHECKS["C06"] = {
             "gives the same observation signature (differential) equal to the reference interpreter; nodes().size() >= structurally distinct "
             "value nodes + sinks; typed twins (replay<TS<Int>>(k) vs replay<TS<Bool>>(k)) stay distinct. non-trivial = distinct (program, history). "
             "ports part: src -> Tracker (ordinary output and recordable state of the same fixed shape {a,b}, bundle and 2-element list, different "
-            "contents) -> two consumers each reading the ordinary output or the recordable state, whole, one leaf, or BOTH leaves captured by a nested child graph (two same-typed projections of one node must stay two captures); ALL 24 permutations of the four "
+            "contents) -> two consumers each reading the ordinary output or the recordable state, whole, one leaf, or BOTH leaves inside a nested child graph, passed as arguments or captured through contexts (two same-typed projections of one node must stay two captures); ALL 24 permutations of the four "
             "wiring statements (a consumer or the producer wired before its source exists goes through delayed_binding<S> and is bound when the source "
             "appears) x every history of {no tick, odd, even} over T cycles; every permutation must give the streams of the reference model.",
     "bounds": {"quick": "base programs <= 3 statements (+ twin + combiner = 5), all 5! orders, T=2; ports: T=4",
